@@ -125,6 +125,9 @@ def _entry_lattice(tier, seed):
     return cases
 
 
+HOST_ZONES = ["EST5", "IST-5:30", "NZST-12NZDT,M9.5.0,M4.1.0/3", "UTC0"]
+
+
 def items(tier, seed):
     out = []
     for d in _days(tier, seed):
@@ -139,6 +142,9 @@ def items(tier, seed):
         out.append(("duration", [(st.isoformat(), step, d, mode) for st, step, d, mode in chunk]))
     for chunk in fw.chunked(_entry_lattice(tier, seed), 4):
         out.append(("entry", [(st.isoformat(), step, h) for st, step, h in chunk]))
+    # the configured instants are UTC whatever the HOST's time zone is (POSIX TZ strings: no tzdata needed)
+    for tz in HOST_ZONES:
+        out.append(("host_tz", tz))
     return out
 
 
@@ -149,6 +155,7 @@ def bounds(tier, seed):
         "duration_cases": len(_dur_lattice(tier, seed)),
         "duration_steps": sorted({c[1] for c in _dur_lattice(tier, seed)}),
         "entry_point_cases": len(_entry_lattice(tier, seed)),
+        "host_time_zones": HOST_ZONES,
         "entry_point_hours": sorted({c[2] for c in _entry_lattice(tier, seed)}, key=float),
     }
 
@@ -483,6 +490,64 @@ def _run_entry(res, item):
         res.traces += 1
 
 
+def _run_host_tz(res, item):
+    """Same configuration (timestamps with a Z designator, as the shipped init files have) under another host zone."""
+    import os  # noqa: PLC0415
+    import time as _time  # noqa: PLC0415
+
+    from resonaate.data.epoch import Epoch  # noqa: PLC0415
+    from sqlalchemy.orm import Query  # noqa: PLC0415
+
+    tz = item[1]
+    old = os.environ.get("TZ")
+    os.environ["TZ"] = tz
+    _time.tzset()
+    try:
+        for st in (datetime(2021, 3, 30, 16, 0, 37), datetime(2019, 12, 31, 23, 59, 29), datetime(2020, 6, 30, 0, 0, 0)):
+            for step in (60, 450):
+                n = 3
+                cfg = scen.config(
+                    st, n + 1,
+                    [scen.engine(1, [scen.target_eci(10001, *scen.LEO_A)], [scen.ground_sensor(20001, 10.0, 20.0)])],
+                    physics=step, truth_only=True,
+                )
+                case = {"host_TZ": tz, "utc_offset_s": -_time.timezone, "start": st.isoformat(), "step": step,
+                        "configured_start_text": cfg["time"]["start_timestamp"]}
+                err, got_iso, got_jd, start_dt = None, [], [], None
+                try:
+                    sc = scen.build(cfg)
+                    start_dt = sc.clock.datetime_start
+                    sc.propagateTo(getTargetJulianDate(sc.clock.julian_date_start, timedelta(seconds=n * step)))
+                    epochs = sorted(sc.database.getData(Query(Epoch)), key=lambda e: e.julian_date)
+                    got_iso = [e.timestampISO for e in epochs]
+                    got_jd = [float(e.julian_date) for e in epochs]
+                except Exception as exc:  # noqa: BLE001
+                    err = f"{type(exc).__name__}: {exc}"
+                want = [st + timedelta(seconds=k * step) for k in range(n + 2)]
+                ok = (err is None and start_dt == st and got_iso == [w.isoformat(timespec="microseconds") for w in want]
+                      and all(abs(a - _ref_jd(w)) <= 2e-9 for a, w in zip(got_jd, want)))
+                res.case(
+                    "host_tz/epochs",
+                    case,
+                    ok,
+                    nontrivial=_time.timezone != 0,
+                    signature="C05/host_tz/epochs_shifted" if err is None else "C05/host_tz/error",
+                    observed={"clock_start": str(start_dt), "epochs": got_iso[:2], "error": err},
+                    expected={"clock_start": str(st), "epochs": [w.isoformat() for w in want[:2]]},
+                    item=item,
+                )
+                res.observe(got_iso)
+                res.states += n + 1
+                res.transitions += n
+                res.traces += 1
+    finally:
+        if old is None:
+            os.environ.pop("TZ", None)
+        else:
+            os.environ["TZ"] = old
+        _time.tzset()
+
+
 def run_item(item):
     res = fw.Result()
     kind = item[0]
@@ -498,6 +563,8 @@ def run_item(item):
         _run_duration(res, item)
     elif kind == "entry":
         _run_entry(res, item)
+    elif kind == "host_tz":
+        _run_host_tz(res, item)
     else:
         raise ValueError(kind)
     return res
